@@ -3,6 +3,7 @@ import RsModel.Lemmas.ProvTree3
 import RsModel.Lemmas.ReplaceOrig
 import RsModel.Lemmas.ProvChunks
 import RsModel.Lemmas.ProvBytes
+import RsModel.Lemmas.SourcesOnce
 /-!
 # C04 — mappings point to where the text really came from
 (leaf level: an OriginalSource maps every token to its own position; the composites are tied by correspondence)
@@ -196,5 +197,37 @@ theorem c04_replace_tree_map_bytes (cons : Text → Option Text) (inner : Src) (
               ∧ adv startPos (T.take (q + d)) = ⟨o.line, o.col + d⟩)
             ∨ (∃ r ∈ sortRepls rs, ∃ cl ∈ splitLines r.content, d < cl.length ∧ (replaceSource inner.src rs)[i]? = cl[d]?)) :=
   replace_origTree_map_bytes cons inner ho hw hasc rs hr hlen final hsmall sm hm
+
+
+/-! ## `sources` lists each original file once -/
+
+/-- **a ConcatSource announces every file name at most once**, whatever its children are and stream (any node kinds, any maps,
+either mode): a source is announced only when its name is not yet a key of the name-keyed table, and is then entered -/
+theorem c04_concat_sources_once (final : Bool) (cs : List SResult) : (annS (concatStream final cs).evs).Nodup :=
+  concatStream_annS_nodup final cs
+
+/-- **`sources` of `map()` lists each original file once** — for every tree of OriginalSource / raw leaves under ConcatSource
+(any nesting), and for a ReplaceSource over such a tree; both column settings: the `sources` table of the SourceMap is exactly the
+list of files the (text-less) stream announces (the indices are dense: C11), and that list has no repetition -/
+theorem c04_sources_once (inner : Src) (ho : inner.OrigTree) (o : Opts) (σ : Store) :
+    (∀ sm, (getMap inner o σ).1 = some sm → sm.sources.Nodup)
+    ∧ (∀ rs sm, (getMap (.replace inner rs) o σ).1 = some sm → sm.sources.Nodup) := by
+  have hnc := Src.origTree_nc inner ho
+  have hnodes := Src.nc_nodes inner hnc
+  have key : ∀ (s : Src), s.IdxHyp → s.cachedNodes = [] → (annS (s.stream ⟨o.columns, true⟩ σ).1.evs).Nodup →
+      ∀ sm, (getMap s o σ).1 = some sm → sm.sources.Nodup := by
+    intro s hidx hn hnd sm hm
+    have hdecl : DeclOK 0 0 (s.stream ⟨o.columns, true⟩ σ).1.evs :=
+      Src.stream_declOK s _ σ hidx (by simp [Src.ids, hn]) (fun p hp => by rw [hn] at hp; simp at hp)
+    simp only [getMap, mapOfEvs] at hm
+    split at hm
+    · cases hm
+    · simp only [Option.some.injEq] at hm
+      rw [← hm]
+      simp only
+      rw [mapAcc_sources_annS _ 0 0 {} hdecl rfl]
+      simpa using hnd
+  refine ⟨key inner (Src.origTree_idx inner ho) hnodes (Src.origTree_annS_nodup inner _ σ ho), fun rs => ?_⟩
+  exact key (.replace inner rs) (Src.origTree_idx inner ho) (by simp [Src.cachedNodes, hnodes]) (replace_origTree_annS_nodup inner rs _ σ ho)
 
 end Rs
